@@ -321,6 +321,7 @@ fn main() {
             match (a.prop.as_str(), a.role.as_str()) {
                 ("C20", _) => p_c20::child_main(&a),
                 ("C06", _) => p_c06::child_main(&a),
+                ("C16", "dst") => p_c06::child_main(&a),
                 ("C13", _) => p_c13::child_main(&a),
                 ("C03", _) => p_c03::child_main(&a),
                 ("C04", _) => p_c04::child_main(&a),
